@@ -181,6 +181,8 @@ type Driver struct {
 	psdir     string
 	prevDir   string // canonical directory of linked-in results of an earlier run
 	aliveFile string // cluster mode with a queue check: the ids of the jobs the cluster knows
+	reported  map[string]string // file key -> the path the stage reports, where that is not the canonical one
+	refdata   []string          // files in directories of reference data outside the pipestance
 	vanished  int    // jobs that died without a trace
 	aged      int    // how often the heartbeat time-out was let pass
 	psid      string
@@ -458,6 +460,10 @@ func (d *Driver) vdrRemove(kv []string) {
 	}
 	// (a path whose parent is gone already cannot be resolved: compare both spellings)
 	outside := !inside(canon(p), canon(d.psdir)) && !inside(p, d.psdir) && !inside(canon(p), d.psdir)
+	if _, err := os.Lstat(path.Dir(p)); err == nil && !inside(canon(p), canon(d.psdir)) && !inside(canon(p), d.psdir) {
+		// the directory it is in exists and is, links resolved, not below the pipestance
+		outside = true
+	}
 	if d.prevDir != "" && inside(canon(p), d.prevDir) {
 		outside = true // results of another pipestance, linked in
 	}
@@ -489,6 +495,9 @@ func (d *Driver) resolve(f FileRef) string {
 	d.fmu.Lock()
 	defer d.fmu.Unlock()
 	p := d.filePath[f.Key()]
+	if r, ok := d.reported[f.Key()]; ok {
+		return r // (a name the stage reports through a link of its own)
+	}
 	if d.spec.DirSlash && p != "" && strings.HasSuffix(f.Name, ".d") {
 		// a stage that reports its directory outputs with a trailing slash
 		return p + "/"
@@ -635,6 +644,27 @@ func (d *Driver) writeFiles(j *job, outs interface{}) interface{} {
 			d.filePath[f.Key()] = canon(p)
 			d.fileJob[f.Key()] = j.key
 			d.aliasOf[f.Key()] = ins[0].Key()
+			d.fmu.Unlock()
+			d.tr.Emit("FileWritten", "job", j.key, "file", f.Key(), "path", d.rel(p))
+			continue
+		}
+		if strings.HasSuffix(f.Name, ".rdl") {
+			// the stage links a directory of reference data (elsewhere, with other files in
+			// it) into its files directory and names one file below the link
+			od := path.Join(path.Dir(canon(d.psdir)), "refdata", strings.NewReplacer("/", "_", "[", "_", "]", "_", "|", "_").Replace(f.Key()))
+			os.MkdirAll(path.Join(od, "sub"), 0755)
+			writeFile(path.Join(od, "data.bin"), fileContent(f.Key()))
+			writeFile(path.Join(od, "other1.bin"), []byte("reference data nobody named\n"))
+			writeFile(path.Join(od, "sub", "other2.bin"), []byte("more of it\n"))
+			lnk := path.Join(j.vj.FilesPath, strings.TrimSuffix(path.Base(p), ".rdl")+"_ref")
+			os.Symlink(od, lnk)
+			p = path.Join(lnk, "data.bin")
+			d.fmu.Lock()
+			d.filePath[f.Key()] = canon(p)
+			d.reported[f.Key()] = p
+			d.fileJob[f.Key()] = j.key
+			d.outsideOf[f.Key()] = true
+			d.refdata = append(d.refdata, path.Join(od, "other1.bin"), path.Join(od, "sub", "other2.bin"), path.Join(od, "data.bin"))
 			d.fmu.Unlock()
 			d.tr.Emit("FileWritten", "job", j.key, "file", f.Key(), "path", d.rel(p))
 			continue
@@ -1009,7 +1039,7 @@ func Run(spec *Spec, workdir string) (res *Result) {
 	d := &Driver{spec: spec, tr: &Trace{}, res: res, byKey: map[string]*Inv{},
 		forks: map[string]core.VerifForkInfo{}, psid: "ps",
 		filePath: map[string]string{}, fileJob: map[string]string{}, extras: map[string]string{}, aliasOf: map[string]string{}, outsideOf: map[string]bool{},
-		tmps: map[string]string{}, goid: goid(), jrng: rand.New(rand.NewSource(spec.Sched.Seed + 7)),
+		tmps: map[string]string{}, reported: map[string]string{}, goid: goid(), jrng: rand.New(rand.NewSource(spec.Sched.Seed + 7)),
 		gates: map[string][]chan struct{}{}}
 	for i := range spec.Invs {
 		d.byKey[spec.Invs[i].Key()] = &spec.Invs[i]
